@@ -135,7 +135,14 @@ def build_lib(flavor, tools=False):
 def harness_obj(name, src, flavor, lang_flags, bdir):
     deps = [src] + glob.glob(os.path.join(VERIF, "vlib", "*.h")) + \
         tree_files(REPO, ["include"]) + [os.path.join(bdir, "jwt_export.h")]
-    key = file_hash(deps)[:16] + hashlib.sha256((flavor + lang_flags).encode()).hexdigest()[:8]
+    hh = hashlib.sha256()
+    for pth in deps:  # content only: the library build dir changes with every tree, its generated header rarely does
+        hh.update(os.path.basename(pth).encode())
+        try:
+            hh.update(open(pth, "rb").read())
+        except OSError:
+            hh.update(b"<missing>")
+    key = hh.hexdigest()[:16] + hashlib.sha256((flavor + lang_flags + REPO).encode()).hexdigest()[:8]
     obj = os.path.join(CACHE, "obj", f"{name}-{flavor}-{key}.o")
     with Lock(os.path.join(CACHE, "lock", f"obj-{name}-{flavor}")):
         if not os.path.exists(obj):
